@@ -1,0 +1,70 @@
+//go:build verif
+
+package m3
+
+import "github.com/uber-go/tally/v4/internal/verifhook"
+
+func verifChanClosed(ch chan struct{}) bool {
+	select {
+	case <-ch:
+		return true
+	default:
+		return false
+	}
+}
+
+// verifAtSelectSend is the schedule point before reportCopyMetric's select:
+// it can proceed when the queue has room or donech is closed.
+func (r *reporter) verifAtSelectSend() {
+	verifhook.AtIf("m3r_send", func() bool {
+		return len(r.metCh) < cap(r.metCh) || verifChanClosed(r.donech)
+	})
+}
+
+// verifAtMarkerSend is the schedule point before Flush's blocking send.
+func (r *reporter) verifAtMarkerSend() {
+	verifhook.AtIf("m3f_send", func() bool { return len(r.metCh) < cap(r.metCh) })
+}
+
+// verifAtRecv is the schedule point before process receives from the queue
+// (the harness adds "or the queue was closed").
+func (r *reporter) verifAtRecv() {
+	verifhook.AtIf("m3p_recv", func() bool { return len(r.metCh) > 0 })
+}
+
+// VerifState is the projection of a reporter's handshake state.
+type VerifState struct {
+	Pending   uint64
+	Done      bool
+	QueueLen  int
+	QueueCap  int
+	Now       int64
+	TagCache  int
+	FreeBytes int32
+	Overhead  int32
+	SeqID     int32
+}
+
+// VerifStateOf reads the projection (call only while the reporter's
+// goroutines are parked at schedule points, or accept a racy snapshot).
+func VerifStateOf(rep Reporter) VerifState {
+	r := rep.(*reporter)
+	return VerifState{
+		Pending:   r.pending.Load(),
+		Done:      r.done.Load(),
+		QueueLen:  len(r.metCh),
+		QueueCap:  cap(r.metCh),
+		Now:       r.now.Load(),
+		TagCache:  r.tagCache.Len(),
+		FreeBytes: r.freeBytes,
+		Overhead:  r.overheadBytes,
+		SeqID:     r.client.SeqId,
+	}
+}
+
+// VerifSetSeqID sets the thrift client's sequence id (the next message uses
+// n+1), so that the longer varint encodings of the envelope can be reached
+// without sending 16384 batches. Call before any batch is in flight.
+func VerifSetSeqID(rep Reporter, n int32) {
+	rep.(*reporter).client.SeqId = n
+}
